@@ -24,31 +24,31 @@ CHECKS = {
             "Trusts refcodec (own page layer, bitwise CRC-32C, own XML parser; roxmltree as second opinion) and its calibration on E57RefImpl/libE57Format/las2e57 files.",
             SIM + "seeded writer programs on a simulated device, judged by an independent fsck/decoder", "DESIGN.md §5 C02"),
     "C06": (True, "exploration",
-            "Seeded writer programs with blob / image / mask lengths swept over every residue modulo 1020 and 4, fed through source pipes with seeded short reads, read back through E57Reader::blob into sinks with seeded short writes; count, length and bytes compared with the scene model, per image descriptor.",
-            "Trusts the scene model, SimDisk and SimPipe; fault-free apart from short transfers.",
+            "Seeded writer programs with blob / image / mask lengths swept over every residue modulo 1020 and 4, fed through source pipes with seeded short reads, read back through E57Reader::blob into sinks with seeded short writes; count, length and bytes compared with the scene model, per image descriptor. Every fourth run contains one add_blob whose source reports an error after k bytes (all residues modulo 4): the call must fail and everything added afterwards must read back.",
+            "Trusts the scene model, SimDisk and SimPipe; the device is fault-free apart from short transfers, the only fault is the error of one blob source.",
             SIM + "seeded writer programs x blob length/placement residues x source/sink pipe chunk schedules vs. scene model", "DESIGN.md §5 C06"),
     "C11": (True, "exploration",
             "Seeded search over page-layer histories: all PagedWriter histories of length <= 3 over a 20-op boundary alphabet plus random histories up to length 40, each under a seeded short-transfer schedule of the simulated device, checked operation by operation against a byte-vector model; then PagedReader histories over the result. Sampling, not proof.",
             "Trusts the byte-vector model, the bitwise CRC-32C in refcodec and SimDisk's File semantics; device fault-free apart from short transfers.",
             SIM + "seeded operation histories over a simulated device with short-transfer schedules vs. reference model", "DESIGN.md §5 C11"),
     "C15": (True, "fault_enumeration",
-            "Per sampled writer program the crash space is enumerated completely: every prefix of the recorded device write log x 19+ torn-write cut positions, drop-without-finalize after every call prefix (incl. abandoned sub-writers), failing XML transformer, hard device error (and EINTR on seek/flush) at every operation inside finalize, a device pre-filled with an older complete file; each resulting image must be rejected by the reader or behave exactly like the completed file and pass refcodec's fsck. Programs are sampled by seed.",
+            "Per sampled writer program the crash space is enumerated completely: every prefix of the recorded device write log x 19+ torn-write cut positions, XML end placed on and next to page boundaries, metadata-only files and transformers that edit, append to or shorten the XML are part of the program space; drop-without-finalize after every call prefix (incl. abandoned sub-writers), failing XML transformer, hard device error (and EINTR on seek/flush) at every operation inside finalize, a device pre-filled with an older complete file; each resulting image must be rejected by the reader or behave exactly like the completed file and pass refcodec's fsck. Programs are sampled by seed.",
             "Assumes writes reach the device in issue order and a torn write leaves a byte prefix.",
             SIM + "crash-point enumeration over the device write log (prefixes x torn cuts) plus drop/transformer/device-error points, reader as judge", "DESIGN.md §5 C15"),
     "C16": (True, "fault_enumeration",
-            "Per sampled program the single-fault space is enumerated completely: for every operation of the fault-free device/pipe operation sequence of the writer program or of the read-everything reader session, and every flavour applicable to its kind (hard error, short-then-error, EINTR, write returning 0, disk full), the session is re-run with exactly that fault; the API call in progress must return Err (EINTR may be absorbed with identical result, Drop swallows), finalize Ok implies the fault-free image, flushed. Plus chunking mode: K transfer schedules must give byte-identical images and identical read results.",
-            "Programs stop at the first failed call; EINTR only on transfers; errors in Drop are swallowed by design.",
+            "Per sampled program the single-fault space is enumerated completely: for every operation of the fault-free device/pipe operation sequence of the writer program or of the read-everything reader session, and every flavour applicable to its kind (hard error of kind Other and of six other kinds, short-then-error, EINTR, write returning 0, disk full), the session is re-run with exactly that fault - writer sessions three times: with a caller that stops at the failed call, one that gives up the item and goes on to the top-level finalize, and one that calls a failed finalize a second time; the API call in progress must return Err (EINTR may be absorbed with identical result, Drop swallows), finalize Ok implies the fault-free image, flushed (for callers that went on after a failure: a file that opens and returns everything the successful calls handed in); reader operations that met no failing device operation equal the fault-free session. Plus chunking mode: K transfer schedules must give byte-identical images and identical read results.",
+            "What a writer offers after a failed call is judged only through the top-level finalize; EINTR only on transfers; errors in Drop are swallowed by design.",
             SIM + "exhaustive single-fault injection over the recorded device-operation sequence, plus schedule-independence under seeded short transfers", "DESIGN.md §5 C16"),
     "C03": (True, "exploration",
             "Seeded scenes encoded by an independent, specification-driven producer (refcodec) under a seeded layout schedule (ragged per-stream packetisation with values straddling packets and empty streams, index/ignored packets before/between/after data packets, shuffled and padded sections, omitted optional type attributes, XML lexical variants); the producer's output must pass refcodec's own fsck and decode to the scene; the crate's reader on a simulated device with seeded short reads must return exactly the encoded values, counts and metadata. Run indices 0..19 read the bundled E57RefImpl / libE57Format / las2e57 files with the crate and with refcodec and compare.",
             "Legal layout space is conservative (choices supported by the format description and by libE57Format-written files). Known finding F13b (all-constant prototype) listed.",
             SIM + "foreign-producer packetisation/interleaving schedule x device chunk schedules vs. scene model", "DESIGN.md §5 C03"),
     "C05": (True, "exploration",
-            "Files from the writer and from the producer (all layouts), per cloud a subset (thorough: all 64) of the option vectors; raw and simple iteration on one reader over a simulated device, every third run with a damaged page; every simple point is compared with a reference view written from the documentation (tolerance on computed coordinates), counts and failure behaviour with the raw iterator.",
-            "Trusts the reference view; normalised values compared by presence only (C13 is n/a); direction-only conversions accept either documented reading.",
+            "Files from the writer and from the producer (all layouts), per cloud a subset (thorough: all 64) of the option vectors; raw and simple iteration on one reader over a simulated device, every third run with a damaged page; every simple point is compared with a reference view written from the documentation (tolerance on computed coordinates), counts and failure behaviour with the raw iterator. Producer files also carry what the crate's writer cannot store (wider invalid-state types, states outside the set, bit patterns above a declared maximum).",
+            "Trusts the reference view; normalised values judged by (v-min)/(max-min) clamped, only for finite values and non-degenerate same-kind ranges (C13's corner cases stay n/a); direction-only conversions accept either documented reading; what the reader does with a point whose stored state lies outside its set is not judged.",
             SIM + "producer layout schedule x 2^6 option configurations x page damage vs. reference view and raw iterator", "DESIGN.md §5 C05"),
     "C07": (True, "fault_enumeration",
-            "Every single-bit flip of every page of small files is enumerated (4 files quick, 24 thorough) and judged with all read entry points; sampled 1-3 bit flips, bursts <= 32 bits, overwrites, checksum-only and header-field damage are applied before open, between two operations of a reader history, or at a device-operation instant inside a call; hand-made files with page sizes other than 1024 go through the static validate_crc/raw_xml; every operation must fail or equal the pristine result, validate_crc fails iff a page is altered; the whole batch is re-executed by a second harness build with the crc32c feature and per-run digests must agree.",
+            "Every single-bit flip of every page of small files is enumerated (4 files quick, 24 thorough) and judged with all read entry points; sampled 1-3 bit flips, bursts <= 32 bits, overwrites, checksum-only and header-field damage and near-miss checksums (little-endian CRC-32C, complement, IEEE CRC-32) are applied before open, between two operations of a reader history, or at a device-operation instant inside a call; hand-made files with page sizes other than 1024 go through the static validate_crc/raw_xml; every operation must fail or equal the pristine result, validate_crc fails iff a page is altered; the whole batch is re-executed by a second harness build with the crc32c feature and per-run digests must agree.",
             "Altered = independent bitwise CRC-32C of the payload differs from the stored checksum; header()/raw_xml on a damaged page 0 not judged.",
             SIM + "stored-byte fault enumeration (all single-bit flips) and seeded alterations at seeded instants x reader histories x both CRC back ends", "DESIGN.md §5 C07"),
     "C08": (True, "exploration",
@@ -60,7 +60,7 @@ CHECKS = {
             "Budget constants separate linear from unbounded, they are not performance bounds; pure CPU loops are caught only by the watchdog.",
             SIM + "seeded corruption x step/allocation/yield budgets measured by the simulated device and a counting allocator", "DESIGN.md §5 C09"),
     "C10": (True, "exploration",
-            "Seeded writer programs with injected calls that a scene model classifies as must-reject / must-accept / unspecified (tri-state), abandoned sub-writers, failing transformers; no call may panic, must-reject calls must return Err, and whenever all calls succeeded the image passes refcodec's fsck, decodes to exactly the accepted content and reads back through the crate's reader.",
+            "Seeded writer programs with injected calls that a scene model classifies as must-reject / must-accept / unspecified (tri-state), abandoned sub-writers, failing transformers, long malformed names and namespaces that differ from registered ones only in case or by one character; no call may panic, must-reject calls must return Err, and whenever all calls succeeded the image passes refcodec's fsck, decodes to exactly the accepted content and reads back through the crate's reader.",
             "Trusts the tri-state model of the documented rules; bounds not compared. Known finding F10 listed.",
             SIM + "seeded API-call programs incl. invalid calls and abandoned sub-writers vs. accept/reject model and read-back", "DESIGN.md §5 C10"),
     "C19": (True, "exploration",
@@ -72,7 +72,7 @@ CHECKS = {
             "Weakest fit of the technique: only the stored bytes between process stages are under the simulator's control; GUIDs from uuid are outside the observed outputs.",
             SIM + "process-level pipelines with seeded inputs and stored-byte faults between stages", "DESIGN.md §5 C20"),
     "C17": (True, "exploration",
-            "Seeded histories of 2-12 read operations (early-terminated iterators, blobs into chunked sinks) on one open reader over writer-made files, optionally with static damage (unsealed pages / resealed section headers) and up to three transient device faults placed inside operations; every operation is compared with the same operation on a freshly opened reader over the same bytes.",
+            "Seeded histories of 2-12 read operations (early-terminated iterators, blobs into chunked sinks) on one open reader over writer-made files, optionally with static damage (unsealed pages / resealed section headers) and transient device faults (hard error, short-then-error, TimedOut/WouldBlock/Interrupted and other kinds; up to three, or one in every operation) placed inside operations; every sixteenth run is a long sequential scan of 64..130 pages followed by a short neighbour with a damaged page behind it; every operation is compared with the same operation on a freshly opened reader over the same bytes, a faulted one also with a fresh reader that meets the same fault at its first read of the same page.",
             "Fresh-reader oracle; errors compared as is-Err; iterators driven to first Err/None.",
             SIM + "seeded reader histories with transient device faults and static damage vs. fresh-reader oracle", "DESIGN.md §5 C17"),
 }
